@@ -762,7 +762,55 @@ fn bounded_set(big: bool) -> Vec<Program<SyncFam>> {
     out
 }
 
+/// "Gated" park programs: main holds a gate mutex while it spawns the children and performs its own
+/// unparks, then opens the gate and blocks in `join`.  While the children interact nobody else can
+/// run, so a parked child cannot be released by a spurious wake-up: the outcome really depends on
+/// the order of park / unpark and of the data accesses around them (seed
+/// C02-unpark-skips-switch-when-token-present was masked by spurious wake-ups in every ungated
+/// program).  Mutex 0 = data, mutex 1 = gate; thread 1 parks, thread 2 (and main) unpark it.
+fn gated_programs() -> Vec<Program<SyncFam>> {
+    let cfg = SCfg {
+        mutexes: 2,
+        condvars: 0,
+        barriers: vec![],
+        onces: 0,
+    };
+    let g = |ops: &[SOp]| -> Vec<GOp<SOp>> { ops.iter().cloned().map(GOp::Op).collect() };
+    let gate = [SOp::Lock(1), SOp::Unlock(1)];
+    let read = [SOp::Lock(0), SOp::Unlock(0)];
+    let write = [SOp::Lock(0), SOp::Set(0, 1), SOp::Unlock(0)];
+    let cat = |parts: &[&[SOp]]| -> Vec<SOp> { parts.iter().flat_map(|p| p.iter().cloned()).collect() };
+    let parkers = [
+        cat(&[&gate, &read, &[SOp::Park, SOp::Park]]),
+        cat(&[&gate, &read, &[SOp::Park]]),
+        cat(&[&gate, &[SOp::Park], &read, &[SOp::Park]]),
+    ];
+    let wakers = [
+        cat(&[&gate, &write, &[SOp::Unpark(1)]]),
+        cat(&[&gate, &[SOp::Unpark(1)], &write]),
+        cat(&[&gate, &write, &[SOp::Unpark(1), SOp::Unpark(1)]]),
+    ];
+    let mut out = Vec::new();
+    for pre in [vec![], vec![SOp::Unpark(1)], vec![SOp::Unpark(1), SOp::Unpark(1)]] {
+        for pk in &parkers {
+            for wk in &wakers {
+                let mut main = vec![GOp::Op(SOp::Lock(1)), GOp::Spawn(1), GOp::Spawn(2)];
+                main.extend(g(&pre));
+                main.extend([GOp::Op(SOp::Unlock(1)), GOp::Join(1), GOp::Join(2)]);
+                out.push(Program {
+                    cfg: cfg.clone(),
+                    threads: vec![main, g(pk), g(wk)],
+                });
+            }
+        }
+    }
+    out
+}
+
 pub fn program_set(set: &str) -> Vec<Program<SyncFam>> {
+    if set == "gated" {
+        return gated_programs();
+    }
     if let Some(base) = set.strip_suffix("-alt") {
         // the same programs through the alias entry points (see prog::alt_api)
         return program_set(base)
